@@ -17,6 +17,7 @@ RULE = ('(A) random well-typed trees (generator of C05, depth<=4): every identif
         'A case = (probe kind, canonical tree, probed location / mutation); non-trivial = a dependency was witnessed, or '
         'MatchExpr was evaluated on an instance / rejected-by-reference non-instance.')
 RULE += " Round 6: instances in which one occurrence of a repeated wildcard faces the wildcard's own identifier (expressions may mention it), in both orders."
+RULE += ' Round 7: every read-set probe repeated on a copy whose memory cells and other compound nodes carry is_term, as the cells returned by the evaluator do.'
 ASSUMPTIONS = ['irsem is the meaning of the IR', 'identifiers used only as segment selectors are not probed (flat memory)']
 
 
